@@ -337,6 +337,7 @@ func init() {
 	}
 	// (1) single byte perturbations: all four entry points
 	h1 := func(x *mc.Exec) {
+		normalise()
 		hi := x.All("header", len(hs))
 		pos := x.All("position", 24)
 		x.Note("header", names[hi])
@@ -379,6 +380,7 @@ func init() {
 	// (2) two byte perturbations: Buf against the table
 	h2 := func(menu bool) mc.Harness {
 		return func(x *mc.Exec) {
+			normalise()
 			hi := x.All("header", len(hs))
 			p1 := x.All("pos1", 23)
 			p2 := p1 + 1 + x.All("pos2", 23-p1)
@@ -412,6 +414,7 @@ func init() {
 	// (3) splices of two canonical headers on predicate byte ranges
 	ranges := [][2]int{{0, 2}, {0, 4}, {2, 4}, {4, 8}, {8, 12}, {6, 14}, {16, 20}, {20, 24}, {0, 12}, {8, 24}, {0, 1}, {1, 2}, {3, 4}, {10, 12}}
 	h3 := func(x *mc.Exec) {
+		normalise()
 		a := x.All("h", len(hs))
 		g := x.All("g", len(hs))
 		fs := newFailSet("sniff.splice")
@@ -453,6 +456,7 @@ func init() {
 	}
 	// (4) truncations and suffixes
 	h4 := func(x *mc.Exec) {
+		normalise()
 		hi := x.All("header", len(hs))
 		L := x.All("length", 25)
 		si := x.All("suffix", len(suffixes))
@@ -490,6 +494,7 @@ func init() {
 		[]byte("\x00\x10JFIF\x00\x01\x01\x00\x00\x48\x00\x48\x00\x00\xff\xe1\x00\x10Ex"),
 	}
 	h5 := func(x *mc.Exec) {
+		normalise()
 		b0 := byte(x.All("first-byte", 256))
 		ri := x.All("rest", len(rests))
 		fs := newFailSet("sniff.3byte-prefix")
@@ -519,6 +524,7 @@ func init() {
 	// (6) Decode sniffs the stream it is given: a ReadSeeker that stands behind other bytes (a second image in a file, an
 	// image behind a wrapper header) is classified and decoded like the same bytes alone
 	h6 := func(x *mc.Exec) {
+		normalise()
 		ss := seeds()
 		s := ss[x.All("seed", len(ss))]
 		pi := x.All("prefix", len(hs)+2)
@@ -563,6 +569,7 @@ func init() {
 	// (7) the type Decode reports is the type of the first 24 bytes, wherever the Exif block of a HEIF stream starts
 	// (the header search walks through several buffer fills before it finds the block)
 	h7 := func(x *mc.Exec) {
+		normalise()
 		var heic []byte
 		for i, n := range names {
 			if strings.Contains(strings.ToLower(n), "hei") {
